@@ -97,6 +97,17 @@ func loaderScenarios() []scenario {
 	ss = append(ss, scenario{Name: "load-double-cycle-at-depth-3", Files: map[string]string{"root.knut": "include \"a.knut\"\n" + root, "a.knut": "include \"b.knut\"\n" + a,
 		"b.knut": "include \"root.knut\"\ninclude \"root.knut\"\n" + b},
 		Args: []string{"check", "root.knut"}, WantErr: []string{"include cycle"}})
+	// a file included from two files: its directives are part of the journal once
+	ss = append(ss, scenario{Name: "load-diamond-print", Files: map[string]string{"root.knut": "include \"a.knut\"\ninclude \"b.knut\"\n" + root,
+		"a.knut": "include \"c.knut\"\n" + a, "b.knut": "include \"c.knut\"\n" + b, "c.knut": trxAt("2020-02-01", "in c")},
+		Args: []string{"print", "root.knut"}, Census: append(append([]string(nil), census...), `"in c"`)})
+	// accrual transactions in two included files (expanded by the per-file conversion goroutines)
+	acr := func(desc string) string {
+		return jr.Dir{Kind: jr.Trx, Date: "2020-01-30", Desc: desc, Books: []jr.Booking{jr.B(accChecking, accRent, "90", "CHF")},
+			Accrue: &jr.Accrual{Interval: "monthly", Start: "2020-01-01", End: "2020-03-31", Acc: accSavings}}.Render()
+	}
+	ss = append(ss, scenario{Name: "load-accruals-in-two-files", Files: map[string]string{"root.knut": flat["root.knut"], "a.knut": a + acr("acc a") + acr("acc a2"), "b.knut": b + acr("acc b") + acr("acc b2")},
+		Args: []string{"print", "root.knut"}, Census: []string{`"in root"`, `"in a"`, `"in b"`, `"acc a (accrual 1/3)"`, `"acc b2 (accrual 3/3)"`}})
 	// two different errors in two files: either may win
 	fs := map[string]string{"root.knut": flat["root.knut"], "a.knut": a + plants[0].text, "b.knut": b + plants[1].text}
 	ss = append(ss, scenario{Name: "load-flat-two-errors", Files: fs, Args: []string{"check", "root.knut"}, WantErr: []string{plants[0].want, plants[1].want}})
